@@ -195,7 +195,9 @@ def rule_r4(ctx, rid="C05.R4"):
     for name in ("total_outbufs_len", "will_close", "close_when_flushed"):
         if name not in role.values():
             ctx.r.violation(rid, key_of(f, None, "writable-missing::" + name), "writable() ignores %s: a worker publishing it is never serviced" % name, f.loc())
-    dom = {t: ((0, 1, 2) if role[t] == "total_outbufs_len" else (False, True)) for t in leaves}
+    # quantities the counter is compared with (a configured threshold) range over numbers, flags over {F, T}
+    compared = {norm(x) for c in ast.walk(e) if isinstance(c, ast.Compare) for x in [c.left] + list(c.comparators)}
+    dom = {t: ((0, 1, 2) if role[t] == "total_outbufs_len" else (0, 1, 2, 3) if t in compared else (False, True)) for t in leaves}
     bad = {}
     for vals in itertools.product(*[dom[t] for t in leaves]):
         env = dict(zip(leaves, vals))
@@ -277,7 +279,26 @@ def rule_r6(ctx):
             darg = norm(kw.value)
     if darg is None and len(dcalls[0].args) >= 3:
         darg = norm(dcalls[0].args[2])
-    if targ is not None and targ == darg:
+    rebound = None
+    if targ is not None and targ == darg and isinstance(tcalls[0].args[0], ast.Name):
+        # the same NAME must also be the same OBJECT: no store to it on a path between the two registrations
+        gi = cfg_of(init)
+        def node_of(call):
+            for n in gi.nodes:
+                if n.ast is not None and n.kind in ("stmt", "branch") and any(x is call for x in ast.walk(n.ast)):
+                    return n
+            return None
+        tn, dn = node_of(tcalls[0]), node_of(dcalls[0])
+        if tn is None or dn is None:
+            raise AnalysisError("cannot place the trigger / dispatcher registrations of the server constructor in its flow graph")
+        for st in gi.nodes:
+            if st.kind == "stmt" and isinstance(st.ast, (ast.Assign, ast.AugAssign, ast.AnnAssign)) and any(isinstance(x, ast.Name) and x.id == targ and isinstance(x.ctx, ast.Store) for x in ast.walk(st.ast)):
+                for (a, b) in ((tn, dn), (dn, tn)):
+                    if a is not st and b is not st and gi.path(a, st, follow_exc=False) is not None and gi.path(st, b, follow_exc=False) is not None:
+                        rebound = st
+    if rebound is not None:
+        ctx.r.violation(rid, key_of(init, None, "trigger-other-map"), "`%s` is re-bound (%s) between the registration of the trigger and that of the server: for the value that takes that arm the trigger sits in another map than the one the loop polls, every pull is lost" % (targ, norm(rebound.ast)), init.loc(rebound.ast))
+    elif targ is not None and targ == darg:
         ctx.r.ok(rid, "trigger and server are registered in the same map (%s)" % targ, init.loc(tcalls[0]))
     else:
         ctx.r.violation(rid, key_of(init, None, "trigger-other-map"), "trigger registered in %s but the server in %s" % (targ, darg), init.loc(tcalls[0]))
